@@ -89,6 +89,7 @@ theorem builder_writeUnary (b : Tlb.Builder) (t : Ideal) (h : BRel b t) (n : Nat
   have : b.writeUnary n = b.writeBits (List.replicate n true ++ [false]) := by
     simp [Tlb.Builder.writeUnary, Tlb.Builder.writeBits]
   rw [this]
+  simp only [Op.spec, writeUnary_spec_eq]
   exact builder_writeBits b t h _
 
 theorem limBits_eq (n : Nat) : Tlb.Builder.limBits n = Ideal.bitLength n := rfl
